@@ -201,7 +201,7 @@ def _run(ctx, libdir, rebound, ft, E, rng, tmpd):
             fa, fb = files[a - 1], files[a]
             wlen = len(fb) - (len(fa) - 12)
             cuts = list(range(0, wlen + 1))
-            if not ctx.thorough and not (si == 0 and a <= 2):
+            if not ctx.thorough and not (si == 0 and a == 1):
                 cuts = sorted(set(list(range(0, 30)) + list(range(wlen - 45, wlen + 1)) + rng.sample(range(wlen), min(wlen, 40))))
             exp = []
             for k in cuts:
